@@ -22,7 +22,8 @@ from pytato.array import Array, IndexLambda
 
 from pyvc.core import Contract, contract
 from pyvc.den import ArrayModel, Reduction, uf
-from pyvc.ptlib import check_index_lambda, mk_placeholder, shape_term
+from pyvc.ptlib import (check_index_lambda, dim, mk_placeholder,
+                        shape_term)
 from pyvc.sym import EngineSignal, py_floordiv, py_mod, z_of
 
 # {{{ NumPy's meaning of the scalar operations (z3 level)
@@ -207,7 +208,7 @@ class BinaryOps(Contract):
         kind, op = inst["kind"], inst["op"]
         arrays = ArrayModel()
         if kind == "mismatch":
-            n, m = h.nonneg("n"), h.nonneg("m")
+            n, m = dim(h, "n"), dim(h, "m")
             a = mk_placeholder(h, "a", shape=[n])
             b = mk_placeholder(h, "b", shape=[m])
             res = build(h, "build.binary", operator.add, a, b)
@@ -217,7 +218,7 @@ class BinaryOps(Contract):
                          props=("C03",))
             return
         r = max(len(inst.get("pa", "")), len(inst.get("pb", "")))
-        common = [h.nonneg(f"n{d}") for d in range(r)]
+        common = [dim(h, f"n{d}") for d in range(r)]
         a = mk_bcast_operand(h, "a", inst["pa"], common)
         if kind in ("arrarr", "cmp", "logical"):
             b = mk_bcast_operand(h, "b", inst["pb"], common)
@@ -345,7 +346,7 @@ class WhereMaxMin(Contract):
         fn, pats = inst["fn"], inst["pats"]
         arrays = ArrayModel()
         r = max(len(p) for p in pats)
-        common = [h.nonneg(f"n{d}") for d in range(r)]
+        common = [dim(h, f"n{d}") for d in range(r)]
         ops = [mk_bcast_operand(h, f"a{k}", p, common)
                for k, p in enumerate(pats)]
         if fn == "where":
@@ -420,7 +421,7 @@ class UnaryAndMath(Contract):
     def run(self, h, inst):
         fn, r = inst["fn"], inst["rank"]
         arrays = ArrayModel()
-        ns = [h.nonneg(f"n{d}") for d in range(r)]
+        ns = [dim(h, f"n{d}") for d in range(r)]
         a = mk_placeholder(h, "a", shape=ns)
         idt = lambda iv: A(arrays, a, list(iv))  # noqa: E731
         if fn == "neg":
@@ -525,7 +526,7 @@ class Reductions(Contract):
         from pytato import reductions as R
         fn, r, axis = inst["fn"], inst["rank"], inst["axis"]
         arrays = ArrayModel()
-        ns = [h.nonneg(f"n{d}") for d in range(r)]
+        ns = [dim(h, f"n{d}") for d in range(r)]
         a = mk_placeholder(h, "a", shape=ns)
         ax_arg = tuple(axis) if isinstance(axis, list) else axis
         res = build(h, "build.reduction", getattr(pt, fn), a, ax_arg)
@@ -592,7 +593,7 @@ class Pad(Contract):
         r, shp = inst["rank"], inst["shp"]
         arrays = ArrayModel()
         if shp == "int":
-            ns = [h.nonneg(f"n{d}") for d in range(r)]
+            ns = [dim(h, f"n{d}") for d in range(r)]
             nz = [shape_term(n) for n in ns]
         else:
             sps = [pt.make_size_param(f"p{d}") for d in range(r)]
